@@ -1,0 +1,17 @@
+//go:build verif
+
+package the
+
+import (
+	"github.com/AliceO2Group/Control/common/event"
+	"github.com/AliceO2Group/Control/common/event/topic"
+)
+
+// VerifSetWriter installs w as the event writer of a topic (verification
+// harness only): published events can then be captured in-process. Writers are
+// otherwise created from viper configuration only.
+func VerifSetWriter(t topic.Topic, w event.Writer) {
+	mu.Lock()
+	defer mu.Unlock()
+	writers[t] = w
+}
